@@ -246,6 +246,51 @@ fn short_followups<const L: usize, const N: usize>(cuts: [usize; N], use_try: bo
     end_ledger();
 }
 
+/// the same for an ARBITRARY valid plan of a 60-byte message: first fragment 1..=24 bytes, then 1..=3
+/// follow-ups of 1..=32 bytes each that tile the rest — all boundaries are solver variables
+fn plan_sym() {
+    const L: usize = 60;
+    setup(64);
+    env::set_block_is_violation(true);
+    let (s_fd, r_fd) = raw_pair();
+    let rx = rx_from_fd(r_fd);
+    let ded = raw_pair();
+    let data: [u8; L] = kani::any();
+    let f = any_usize_in(1, 24);
+    let n = any_usize_in(1, 3);
+    let s1 = any_usize_in(1, 32);
+    let s2 = any_usize_in(1, 32);
+    let c1 = f + s1;
+    let c2 = c1 + s2;
+    // the plan must tile the message exactly
+    if n == 1 {
+        kani::assume(c1 == L);
+    } else if n == 2 {
+        kani::assume(c2 == L);
+    } else {
+        kani::assume(c2 < L && L - c2 <= 32);
+    }
+    assert!(inject(s_fd, Some(L), &data[..f], &[ded.1]) > 0);
+    assert!(inject(ded.0, None, &data[f..c1], &[]) > 0);
+    if n >= 2 {
+        assert!(inject(ded.0, None, &data[c1..c2], &[]) > 0);
+    }
+    if n >= 3 {
+        assert!(inject(ded.0, None, &data[c2..L], &[]) > 0);
+    }
+    raw_close(ded.0);
+    raw_close(ded.1);
+    let (got, ch, sh) = rx.recv().unwrap();
+    assert!(got.len() == L, "C01: reassembled length");
+    let i = any_usize_in(0, L - 1);
+    assert!(got[i] == data[i], "C01/C18: reassembled byte differs (or was never written)");
+    assert!(ch.is_empty() && sh.is_empty());
+    crate::witness!(n == 3 && f < 24, "WITNESS:THREE_FOLLOWUPS_SHORT_FIRST");
+    drop((got, ch, sh, rx));
+    raw_close(s_fd);
+    end_ledger();
+}
+
 /// C09 (b)(c)(d): the receiving end of T travels inside a message queued on C.
 /// sc: 0 = still in transit, 1 = C's receiver dropped with the message queued, 2 = unpacked first,
 /// 3 = unpacked onto descriptor number 0 and dropped again
@@ -308,6 +353,7 @@ harnesses! {
     #[unwind(8)] fn recv_short_89_b() { short_followups::<89, 5>([24, 25, 57, 80, 89], true) }
     // two packets, the follow-up one byte shorter than the window would allow
     #[unwind(8)] fn recv_short_60_c() { short_followups::<60, 3>([24, 55, 60], false) }
+    #[unwind(8)] fn recv_plan_sym_60() { plan_sym() }
     #[unwind(6)] fn transit_queued_small() { transit::<3>(0) }
     #[unwind(6)] fn transit_queued_multi() { transit::<57>(0) }
     #[unwind(6)] fn transit_carrier_dropped_small() { transit::<3>(1) }
